@@ -8,3 +8,33 @@ Proof.
   intros t r Hn e s. unfold catch_at. destruct r as [a s'|e' s'|]; try discriminate.
   rewrite Hn. discriminate.
 Qed.
+
+From Coq Require Import ZArith.
+From GQL Require Import Exec.CoerceSpec Proofs.CoerceProofs.
+
+Lemma gvv_reject : forall S ds inputs d, In d ds -> NC S (v_type d) (jlookup (v_name d) inputs) ->
+  forall fuel r, get_variable_values fuel S ds inputs = Some r -> exists n, r = inr n.
+Proof.
+  intros S ds inputs d. induction ds as [|d0 ds IH]; intros Hin Hnc fuel r Hr; [contradiction|].
+  cbn [get_variable_values] in Hr.
+  destruct (get_variable_value fuel S d0 (jlookup (v_name d0) inputs)) as [[x|u]|] eqn:E; [| |discriminate].
+  - destruct Hin as [->|Hin].
+    + pose proof (bad_variable_rejects _ _ _ Hnc _ _ E) as Hb. discriminate.
+    + destruct (get_variable_values fuel S ds inputs) as [[m|e]|] eqn:E2; [| |discriminate].
+      * destruct (IH Hin Hnc _ _ E2) as [n Hn]. discriminate.
+      * inversion Hr. eexists; reflexivity.
+  - inversion Hr. eexists; reflexivity.
+Qed.
+
+(* a request with a non-conformant variable value is answered without data and no resolver runs *)
+Lemma request_rejects_bad_variable : forall S D opn op inputs d,
+  get_operation D opn = Some op -> In d (o_vars op) ->
+  NC S (v_type d) (jlookup (v_name d) inputs) ->
+  forall fuel root or tor,
+    request fuel S D opn inputs root or tor = RReject \/ request fuel S D opn inputs root or tor = RFuel.
+Proof.
+  intros S D opn op inputs d Hop Hin Hnc fuel root or tor. unfold request. rewrite Hop.
+  destruct (root_type S op); [|left; reflexivity].
+  destruct (get_variable_values fuel S (o_vars op) inputs) as [r|] eqn:E; [|right; reflexivity].
+  destruct (gvv_reject _ _ _ _ Hin Hnc _ _ E) as [nm ->]. left. reflexivity.
+Qed.
